@@ -280,8 +280,10 @@ class CoverpointBinCollectionModel(CoverpointBinModelBase):
             for r in rangelist.range_l:
                 if r[0] == r[1]:
                     ret.add_bin(CoverpointBinSingleValModel(name + "[" + str(idx) + "]", r[0]))
+                    idx += 1
                 else:
                     ret.add_bin(CoverpointBinArrayModel(name, r[0], r[1]))
-                idx += 1
+                    # An array bin takes one name index per value
+                    idx += (r[1]-r[0]+1)
                     
         return ret
